@@ -86,7 +86,10 @@ def candidate_ops(tier):
 def shards(tier, seed):
     out = []
     for alphabet, op, wtype, bound, root in candidate_ops(tier):
-        nparts = 1 if bound <= 1 else 48
+        sel = op[3] if op[0] == "mv" else op[2]
+        # four tasks (about 4000 schedules with one preemption) are split too
+        nparts = 48 if bound > 1 else (
+            8 if root == "full" and sel in ("all", "nfilter") else 1)
         for part in range(nparts):
             out.append(("threads", tier, alphabet, op, wtype, bound, part,
                         nparts, root))
